@@ -98,3 +98,11 @@ func (cs *ConsensusState) VerifSaveTimeoutOnly(height, round int64, step RoundSt
 
 // VerifSetSkipTimeoutCommit sets the "skip timeout commit" parameter.
 func (cs *ConsensusState) VerifSetSkipTimeoutCommit(b bool) { cs.timeoutParams.SkipTimeoutCommit = b }
+
+// VerifRotateWAL rotates the head file of the WAL group now (what the group's ticker does when
+// the head exceeds its size limit).
+func (cs *ConsensusState) VerifRotateWAL() {
+	if cs.wal != nil {
+		cs.wal.group.RotateFile()
+	}
+}
